@@ -1521,6 +1521,21 @@ func (e *CoreExtension) filterLast(value interface{}, args ...interface{}) (inte
 	return nil, fmt.Errorf("cannot get last element of %T", value)
 }
 
+// reverseString reverses a string character by character. Bytes that are not valid
+// UTF-8 are kept as they are (each counts as one character), so that reversing twice
+// gives the original string back.
+func reverseString(s string) string {
+	buf := make([]byte, len(s))
+	pos := len(s)
+	for i := 0; i < len(s); {
+		_, width := utf8.DecodeRuneInString(s[i:])
+		pos -= width
+		copy(buf[pos:], s[i:i+width])
+		i += width
+	}
+	return string(buf)
+}
+
 func (e *CoreExtension) filterReverse(value interface{}, args ...interface{}) (interface{}, error) {
 	if value == nil {
 		return nil, nil
@@ -1529,11 +1544,7 @@ func (e *CoreExtension) filterReverse(value interface{}, args ...interface{}) (i
 	switch v := value.(type) {
 	case string:
 		// Reverse string
-		runes := []rune(v)
-		for i, j := 0, len(runes)-1; i < j; i, j = i+1, j-1 {
-			runes[i], runes[j] = runes[j], runes[i]
-		}
-		return string(runes), nil
+		return reverseString(v), nil
 	case []interface{}:
 		// Reverse slice
 		result := make([]interface{}, len(v))
@@ -1547,12 +1558,7 @@ func (e *CoreExtension) filterReverse(value interface{}, args ...interface{}) (i
 	rv := reflect.ValueOf(value)
 	switch rv.Kind() {
 	case reflect.String:
-		s := rv.String()
-		runes := []rune(s)
-		for i, j := 0, len(runes)-1; i < j; i, j = i+1, j-1 {
-			runes[i], runes[j] = runes[j], runes[i]
-		}
-		return string(runes), nil
+		return reverseString(rv.String()), nil
 	case reflect.Array, reflect.Slice:
 		// Create a new slice with the same type
 		resultSlice := reflect.MakeSlice(reflect.SliceOf(rv.Type().Elem()), rv.Len(), rv.Len())
